@@ -12,7 +12,7 @@ import (
 func init() {
 	Register(&Property{
 		ID:    "C12",
-		Floor: 60,
+		Floor: 105,
 		Clauses: "write schedulers (random, round-robin, RFC 7540 priority, RFC 9218 priority): a queue handed to writeQueuePool.put is dropped by its holder " +
 			"(map entry deleted with the same map and key; by-value holder field reset to the zero value on every path; ring neighbours relinked and the ring head moved off it); " +
 			"put is called only from the five reviewed sites and, in random Pop, only for an empty queue; put empties the queue it recycles; " +
